@@ -151,8 +151,11 @@ func (meta *DefinitionMeta) UnmarshalYAML(value *yaml.Node) error {
 }
 
 func (rec *RecordDefinition) UnmarshalYAML(value *yaml.Node) error {
+	if value.Kind == yaml.SequenceNode {
+		return parseError(value, "a !record must be specified as a map")
+	}
 	parsedFields := false
-	for i := 0; i < len(value.Content); i += 2 {
+	for i := 0; i+1 < len(value.Content); i += 2 {
 		k := value.Content[i]
 		v := value.Content[i+1]
 		switch k.Value {
@@ -185,11 +188,11 @@ func (rec *RecordDefinition) UnmarshalYAML(value *yaml.Node) error {
 }
 
 func (ns *Namespace) UnmarshalYAML(value *yaml.Node) error {
-	if value.Tag != "!!map" {
+	if value.Tag != "!!map" || value.Kind != yaml.MappingNode {
 		return parseError(value, "expected a mapping from <typename>: <type definition>")
 	}
 
-	for i := 0; i < len(value.Content); i += 2 {
+	for i := 0; i+1 < len(value.Content); i += 2 {
 		nameNode := value.Content[i]
 		typeNode := value.Content[i+1]
 
@@ -249,11 +252,11 @@ func (fields *Fields) UnmarshalYAML(value *yaml.Node) error {
 }
 
 func (computedFields *ComputedFields) UnmarshalYAML(value *yaml.Node) error {
-	if value.Tag != "!!map" {
+	if value.Tag != "!!map" || value.Kind != yaml.MappingNode {
 		return parseError(value, "expected computed fields to be a map")
 	}
 
-	for i := 0; i < len(value.Content); i += 2 {
+	for i := 0; i+1 < len(value.Content); i += 2 {
 		fieldKey := value.Content[i]
 		fieldValue := value.Content[i+1]
 		if fieldKey.Tag != "!!str" {
@@ -291,7 +294,7 @@ func UnmarshalExpression(value *yaml.Node) (Expression, error) {
 			key := value.Content[0]
 			value := value.Content[1]
 			if key.Tag == "!switch" {
-				if value.Tag != "!!map" {
+				if value.Tag != "!!map" || value.Kind != yaml.MappingNode {
 					return nil, parseError(value, "expected a mapping from <case>: <expression>")
 				}
 				return UnmarshalSwitchExpression(key, value.Content)
@@ -316,7 +319,7 @@ func UnmarshalSwitchExpression(targetNode *yaml.Node, caseNodes []*yaml.Node) (E
 
 	switchExpression.Target = target
 
-	for i := 0; i < len(caseNodes); i += 2 {
+	for i := 0; i+1 < len(caseNodes); i += 2 {
 		patternNode := caseNodes[i]
 		exprNode := caseNodes[i+1]
 		switchCase := &SwitchCase{
@@ -455,8 +458,11 @@ func convertPattern(pat *parser.Pattern, node NodeMeta) Pattern {
 }
 
 func (protocol *ProtocolDefinition) UnmarshalYAML(value *yaml.Node) error {
+	if value.Kind == yaml.SequenceNode {
+		return parseError(value, "a !protocol must be specified as a map")
+	}
 	parsedSequence := false
-	for i := 0; i < len(value.Content); i += 2 {
+	for i := 0; i+1 < len(value.Content); i += 2 {
 		k := value.Content[i]
 		v := value.Content[i+1]
 		switch k.Value {
@@ -488,11 +494,11 @@ func (steps *ProtocolSteps) UnmarshalYAML(value *yaml.Node) error {
 }
 
 func UnmarshalFieldsOrProtocolStepsYAML[T fieldOrProtocolStep](elements *[]*T, value *yaml.Node) error {
-	if value.Tag != "!!map" {
+	if value.Tag != "!!map" || value.Kind != yaml.MappingNode {
 		return parseError(value, "expected field map")
 	}
 
-	for i := 0; i < len(value.Content); i += 2 {
+	for i := 0; i+1 < len(value.Content); i += 2 {
 		fieldKey := value.Content[i]
 		fieldValue := value.Content[i+1]
 		if fieldKey.Tag != "!!str" {
@@ -533,7 +539,7 @@ func UnmarshalVectorYAML(value *yaml.Node) (*GeneralizedType, error) {
 	vector := &Vector{NodeMeta: createNodeMeta(value)}
 	t := &GeneralizedType{Dimensionality: vector, NodeMeta: vector.NodeMeta}
 
-	for i := 0; i < len(value.Content); i += 2 {
+	for i := 0; i+1 < len(value.Content); i += 2 {
 		k := value.Content[i]
 		v := value.Content[i+1]
 		switch k.Value {
@@ -573,7 +579,7 @@ func UnmarshalArrayYAML(value *yaml.Node) (*GeneralizedType, error) {
 	array := &Array{NodeMeta: createNodeMeta(value)}
 	nt := &GeneralizedType{Dimensionality: array, NodeMeta: createNodeMeta(value)}
 
-	for i := 0; i < len(value.Content); i += 2 {
+	for i := 0; i+1 < len(value.Content); i += 2 {
 		k := value.Content[i]
 		v := value.Content[i+1]
 		switch k.Value {
@@ -611,7 +617,7 @@ func UnmarshalArrayYAML(value *yaml.Node) (*GeneralizedType, error) {
 				}
 			case "!!map":
 				array.Dimensions = &ArrayDimensions{}
-				for i := 0; i < len(v.Content); i += 2 {
+				for i := 0; i+1 < len(v.Content); i += 2 {
 					k := v.Content[i]
 					v := v.Content[i+1]
 					dim := ArrayDimension{Name: &k.Value, Comment: normalizeComment(k.HeadComment), NodeMeta: createNodeMeta(k)}
@@ -648,7 +654,7 @@ func UnmarshalStreamYAML(value *yaml.Node) (*GeneralizedType, error) {
 		NodeMeta:       nodeMeta,
 	}
 
-	for i := 0; i < len(value.Content); i += 2 {
+	for i := 0; i+1 < len(value.Content); i += 2 {
 		k := value.Content[i]
 		v := value.Content[i+1]
 		switch k.Value {
@@ -678,7 +684,7 @@ func UnmarshalMapYAML(value *yaml.Node) (*GeneralizedType, error) {
 	m := &Map{NodeMeta: createNodeMeta(value)}
 	t := &GeneralizedType{Dimensionality: m, NodeMeta: m.NodeMeta}
 
-	for i := 0; i < len(value.Content); i += 2 {
+	for i := 0; i+1 < len(value.Content); i += 2 {
 		k := value.Content[i]
 		v := value.Content[i+1]
 		switch k.Value {
@@ -777,7 +783,7 @@ func UnmarshalUnionYAML(value *yaml.Node) (*GeneralizedType, error) {
 	}
 
 	cases := TypeCases{}
-	for i := 0; i < len(value.Content); i += 2 {
+	for i := 0; i+1 < len(value.Content); i += 2 {
 		tagNode := value.Content[i]
 		typeNode := value.Content[i+1]
 
@@ -825,9 +831,12 @@ func UnmarshalTypeCases(value *yaml.Node) (TypeCases, error) {
 }
 
 func UnmarshalGenericNode(value *yaml.Node) (Type, error) {
+	if value.Kind != yaml.MappingNode {
+		return nil, parseError(value, "a !generic must be specified with fields `name` and `args`")
+	}
 	simpleType := &SimpleType{NodeMeta: createNodeMeta(value)}
 
-	for i := 0; i < len(value.Content); i += 2 {
+	for i := 0; i+1 < len(value.Content); i += 2 {
 		k := value.Content[i]
 		v := value.Content[i+1]
 		switch k.Value {
@@ -890,7 +899,10 @@ func (dimension *ArrayDimension) UnmarshalYAML(value *yaml.Node) error {
 }
 
 func (enum *EnumDefinition) UnmarshalYAML(value *yaml.Node) error {
-	for i := 0; i < len(value.Content); i += 2 {
+	if value.Kind == yaml.SequenceNode {
+		return parseError(value, "an !enum or !flags must be specified as a map")
+	}
+	for i := 0; i+1 < len(value.Content); i += 2 {
 		k := value.Content[i]
 		v := value.Content[i+1]
 		switch k.Value {
@@ -942,7 +954,7 @@ func UnmarshalEnumValues(flags bool, value *yaml.Node) (*EnumValues, error) {
 		return &vals, nil
 
 	case "!!map":
-		for i := 0; i < len(value.Content); i += 2 {
+		for i := 0; i+1 < len(value.Content); i += 2 {
 			k := value.Content[i]
 			v := value.Content[i+1]
 			if k.Tag != "!!str" && v.Tag != "!!int" {
